@@ -90,6 +90,16 @@ theorem C06_linecol_strict_mono (s : List Char) (p q : Nat) (h : p < q) :
 example : posToLineCol "ab\ncd".toList 1 = (1, 2) ∧ posToLineCol "ab\ncd".toList 2 = (1, 3) ∧
     posToLineCol "ab\ncd".toList 3 = (2, 1) := by decide
 
+/-- lines and columns are 1-based and bounded by the position: `1 ≤ line ≤ pos + 1`, `1 ≤ col ≤ pos + 1` -/
+theorem C06_linecol_bounds (s : List Char) (pos : Nat) :
+    1 ≤ (posToLineCol s pos).1 ∧ (posToLineCol s pos).1 ≤ pos + 1 ∧
+      1 ≤ (posToLineCol s pos).2 ∧ (posToLineCol s pos).2 ≤ ((pos + 1 : Nat) : Int) := by
+  obtain ⟨l, st, hst, c, _, _⟩ := C06_linecol s pos
+  have h1 : (s.take pos).count '\n' ≤ (s.take pos).length := List.count_le_length
+  have h2 : (s.take pos).length ≤ pos := by rw [List.length_take]; omega
+  rw [l, c]
+  refine ⟨by omega, by omega, by omega, by omega⟩
+
 /-- the first character of every text is at line 1, column 1 -/
 theorem C06_linecol_origin (s : List Char) : posToLineCol s 0 = (1, 1) := by
   obtain ⟨l, st, hst, c, _, _⟩ := C06_linecol s 0
